@@ -1,7 +1,8 @@
 """C03 — execute one zoo model under in-process perturbations and return its
 canonical digest.
 
-A *job* is plain JSON: {"model": name, "params": {...}, "seed": int, "wall": null|"offset"|"fast"|"frozen"}.
+A *job* is plain JSON: {"model": name, "params": {...}, "seed": int, "wall": null|"offset"|"fast"|"frozen",
+"numpy_seed": true|false}.
 `execute(job)` does what a user would do in one interpreter:
 
     random.seed(seed); numpy.random.seed(seed)      # the user's seeds
@@ -152,6 +153,11 @@ class _UuidCount:
         uuid.uuid4 = self._orig
 
 
+def _np_state():
+    st = np.random.get_state()
+    return (int(st[2]), st[1][:4].tolist())
+
+
 def _peek_event_counter() -> int:
     """Value the process-global event counter would hand out next (observation only: itertools.count
     exposes it through repr; nothing is consumed)."""
@@ -181,8 +187,9 @@ def execute(job: dict, full: bool = False) -> dict:
     with _Wall(job.get("wall")) as wall, _UuidCount() as uu:
         # ---- what the user does
         random.seed(seed)
-        np.random.seed(seed % (2**32))
-        rs0, ns0 = random.getstate(), np.random.get_state()[1][:4].tolist()
+        if job.get("numpy_seed", True):
+            np.random.seed(seed % (2**32))     # numpy_seed=False: the guides' recipe taken literally (random.seed only); observation runs
+        rs0, ns0 = random.getstate(), _np_state()
         sim, stats_fn = entry["build"](job.get("params") or {}, seed)
         mon = Monitor(sim, cap=CAP, spin_cap=CAP + 1, invariant=rec, digest=False)
         status = "ok"
@@ -200,7 +207,7 @@ def execute(job: dict, full: bool = False) -> dict:
         st = Stats()
         stats_fn(st)
         drew_random = random.getstate() != rs0
-        drew_numpy = np.random.get_state()[1][:4].tolist() != ns0
+        drew_numpy = _np_state() != ns0
     stats = st.out
     stats["run.status"] = status
     stats["run.deliveries"] = str(mon.seq)
